@@ -32,7 +32,7 @@ func c08Mutate(r *fw.Rand, doc []byte, other []byte, format string) ([]byte, str
 		if len(b) == 0 {
 			b = []byte(fw.Pick(r, c08Dict))
 		}
-		m := r.Intn(17)
+		m := r.Intn(18)
 		switch m {
 		case 0: // truncate anywhere
 			b = b[:r.Intn(len(b)+1)]
@@ -211,6 +211,50 @@ func c08Mutate(r *fw.Rand, doc []byte, other []byte, format string) ([]byte, str
 				b = bytes.Join(ls, nil)
 			}
 			names = append(names, "cell")
+		case 17: // a quoted attribute as a whole: dropped, renamed, or moved behind another attribute (of another element)
+			type attr struct{ name, end int } // b[name:end] = name="value"
+			var attrs []attr
+			for i := 1; i+2 < len(b); i++ {
+				if b[i] == '=' && (b[i+1] == '"' || b[i+1] == '\'') {
+					e := bytes.IndexByte(b[i+2:], b[i+1])
+					if e < 0 || e >= 200 {
+						continue
+					}
+					n := i
+					for n > 0 && (b[n-1] == ':' || b[n-1] == '-' || b[n-1] == '_' || b[n-1] >= '0' && b[n-1] <= '9' || b[n-1] >= 'a' && b[n-1] <= 'z' || b[n-1] >= 'A' && b[n-1] <= 'Z') {
+						n--
+					}
+					if n < i {
+						attrs = append(attrs, attr{n, i + 2 + e + 1})
+						i += 2 + e
+					}
+				}
+			}
+			if len(attrs) > 0 {
+				a := attrs[r.Intn(len(attrs))]
+				whole := append([]byte(nil), b[a.name:a.end]...)
+				switch r.Intn(3) {
+				case 0:
+					b = append(b[:a.name:a.name], b[a.end:]...)
+				case 1:
+					eq := bytes.IndexByte(whole, '=')
+					nn := fw.Pick(r, []string{"xml:id", "id", "style", "region", "begin", "end", "dur", "tts:color", "tts:origin", "tts:extent", "ttp:frameRate", "ttp:tickRate", "xml:lang", "color", "x"})
+					b = append(b[:a.name:a.name], append(append([]byte(nn), whole[eq:]...), b[a.end:]...)...)
+				default:
+					t := attrs[r.Intn(len(attrs))]
+					if t.end <= a.name || t.name >= a.end {
+						ins := append([]byte(" "), whole...)
+						if t.end <= a.name {
+							b = append(b[:a.name:a.name], b[a.end:]...)
+							b = append(b[:t.end:t.end], append(ins, b[t.end:]...)...)
+						} else {
+							b = append(b[:t.end:t.end], append(ins, b[t.end:]...)...)
+							b = append(b[:a.name:a.name], b[a.end:]...)
+						}
+					}
+				}
+			}
+			names = append(names, "attr-whole")
 		default: // repeat the document
 			if len(b) < 4000 {
 				b = append(b, b...)
@@ -888,7 +932,7 @@ func init() {
 	fw.Register(&fw.Property{
 		ID:    "C08",
 		Level: "exploration",
-		Rule: "reader cases: a seed document (valid documents of every format from the C01-C06 generators, the repository's testdata, hostile transport streams with a valid packet/table layer and malformed PES payloads / data-unit lengths {0,1,2,3,43,44,45,255} / framing codes / Hamming bytes / packet numbers 0..31 / truncated units / missing tables, or short random bytes) is put through 1..3 mutators (truncate anywhere / at a line boundary, delete-duplicate-swap lines, splice two documents, bit flips, random bytes, dictionary tokens inserted or overwriting, values of quoted attributes and cells of separated lines replaced from a list of wrong-arity/wrong-unit/foreign-keyword values (one to three at once), cut what follows a token, numeric extremes and empties, chunk removal, STL GSI/TTI field mutators, character removal, doubling) and fed to its own reader and to about half of the other five readers, with random reader options (STL ignore-TCP; teletext page in {0,100,888,899,-1,2^20}, PID in {0,256,8191,70000} and the true values), and now and then through Open on a real file with every extension. Oracle: recover() around each call + worker exit status (fatal errors) + stall detector (a case that does not finish within 40 s is re-run alone three times; three time-outs = violation with the goroutine dump, otherwise inconclusive); a panic whose innermost frames are inside go-astits is counted as excluded. " +
+		Rule: "reader cases: a seed document (valid documents of every format from the C01-C06 generators, the repository's testdata, hostile transport streams with a valid packet/table layer and malformed PES payloads / data-unit lengths {0,1,2,3,43,44,45,255} / framing codes / Hamming bytes / packet numbers 0..31 / truncated units / missing tables, or short random bytes) is put through 1..3 mutators (truncate anywhere / at a line boundary, delete-duplicate-swap lines, splice two documents, bit flips, random bytes, dictionary tokens inserted or overwriting, values of quoted attributes and cells of separated lines replaced from a list of wrong-arity/wrong-unit/foreign-keyword values (one to three at once), whole attributes dropped / renamed / moved to another element, cut what follows a token, numeric extremes and empties, chunk removal, STL GSI/TTI field mutators, character removal, doubling) and fed to its own reader and to about half of the other five readers, with random reader options (STL ignore-TCP; teletext page in {0,100,888,899,-1,2^20}, PID in {0,256,8191,70000} and the true values), and now and then through Open on a real file with every extension. Oracle: recover() around each call + worker exit status (fatal errors) + stall detector (a case that does not finish within 40 s is re-run alone three times; three time-outs = violation with the goroutine dump, otherwise inconclusive); a panic whose innermost frames are inside go-astits is counted as excluded. " +
 			"writer cases: the first 272 (thorough: 4352) write every block of 256 code points of the BMP and one block of every other plane (thorough: all 17 planes), 32 characters to a cue, through the five writers; then cue lists built from the public types with every optional pointer/map independently nil or set, nil/empty Lines and Items, hostile text (leading combining marks, NUL and controls, invalid UTF-8, astral runes, 100 kB lines), negative and huge times, odd metadata, through all five writers and Subtitles.Write. thorough tier: 10 scaling measurements (n vs 8n cues; >40x and >1 s = violation, 12..40x = inconclusive). distinct_nontrivial = distinct inputs.",
 		Assumptions:  []string{"'never loops forever' is decided as bounded progress (40 s stall limit per case, confirmed by three isolated re-runs); 'time proportional to the input' as a three-valued scaling measurement", "nil *Item elements and map keys different from the definition's id are not 'optional parts' and are not generated"},
 		Cases:        func(tier string) int64 { return rN(tier) + wN(tier) + tierN(tier, 0, 10) },
